@@ -8,11 +8,15 @@ Stage 2 (correspondence): three families whose abstraction is exact by construct
 Stage 3 (direct search): object roots mutated at byte, JSON and directory level, validated by
   the real code (debug harness and release CLI) in child processes under a wall-clock and an
   address-space limit; oracle = panic / abort / timeout / memory blow-up / repository
-  validation not reaching the remaining objects.  Failures inside a class of
-  Model/KnownC17.v (decided by the Coq classifier on the abstracted input) are known findings.
+  validation not reaching the remaining objects.  Failures inside the class of
+  Model/KnownC17.v (quadratic-path, decided by the Coq classifier on the abstracted input) are
+  known findings.
   The classes repaired in /repo (blank-id b116ae5, version-gap 719e6a5 + f842f41, wide-padding
-  d5a9e2d) are still generated, as must-pass inputs (family "regress"): any failure there, or a
-  verdict that does not report the problem within the linear error budget, is a violation.
+  d5a9e2d, empty-pps-debug 547c92e, empty-manifest-entry 7c90d82, uri-colon-segment 389bfd0) are
+  still generated - at random by the families and as dedicated members - as must-pass inputs
+  (family "regress" and the scripted members of family "cross"): any failure there, or a verdict
+  that does not report the problem (E037 / E010 within the linear budget / E066 / W005 / W009),
+  is a violation.
 """
 import base64
 import concurrent.futures
@@ -41,8 +45,7 @@ U32 = 4294967295
 IMPORTS = ["Base.Bytes", "Model.VersionNum", "Model.VCode", "Model.KnownC17", "Corr.CheckVCode"]
 
 # failure kind -> known classes that can explain it (a kind without entry is never excused)
-NEED = {"unwrap-none": {"empty-manifest-entry"}, "sub-overflow": {"empty-pps-debug"},
-        "timeout": {"quadratic-path"}, "oom": {"quadratic-path"}, "unwrap-unit": {"uri-colon-segment"}}
+NEED = {"timeout": {"quadratic-path"}, "oom": {"quadratic-path"}}
 MAX_LISTED = 100             # errors per version key the repaired validate_version_nums may record (Props/C17.v C17_vnums_cost_linear)
 
 
@@ -286,10 +289,11 @@ def inventory_files(obj):
 
 
 def features(obj):
-    """per inventory.json of an object root: what the Coq classifiers are evaluated on"""
+    """per inventory.json of an object root: what the Coq classifier is evaluated on
+    (the path with the largest slashes * length product)"""
     feats = []
     for d, p in inventory_files(obj):
-        f = {"where": d or "root", "id": None, "keys": None, "lens": None, "path": (0, 0), "ainv": None, "uris": []}
+        f = {"where": d or "root", "path": (0, 0)}
         try:
             data = open(p, "rb").read()
         except OSError:
@@ -299,19 +303,7 @@ def features(obj):
             fallback_features(data, f)
             feats.append(f)
             continue
-        idv = first(t, "id")
-        if isinstance(idv, str):
-            f["id"] = idv
-            f["uris"].append(idv)
         vers = first(t, "versions")
-        vnums = []
-        if isinstance(vers, O):
-            f["keys"] = []
-            for k, _ in vers:
-                pv = vparse(k)
-                if pv:
-                    f["keys"].append(pv[0])
-                    vnums.append(pv)
         best = (0, 0)
 
         def see_path(s):
@@ -322,18 +314,12 @@ def features(obj):
                     best = c
         man = first(t, "manifest")
         if isinstance(man, O):
-            f["lens"] = []
             for k, v in man:
                 if isinstance(v, list):
-                    f["lens"].append(len(v))
                     for s in v:
                         see_path(s)
         if isinstance(vers, O):
             for k, v in vers:
-                usr = first(v, "user") if isinstance(v, O) else None
-                adr = first(usr, "address") if isinstance(usr, O) else None
-                if isinstance(adr, str):
-                    f["uris"].append(adr)
                 stt = first(v, "state") if isinstance(v, O) else None
                 if isinstance(stt, O):
                     for dk, arr in stt:
@@ -341,7 +327,6 @@ def features(obj):
                             for s in arr:
                                 see_path(s)
         f["path"] = best
-        f["ainv"] = abstract_inventory(t)
         feats.append(f)
     return feats
 
@@ -353,83 +338,12 @@ def fallback_features(data, f):
     """the document is beyond Python's JSON parser (nesting depth, invalid tail ...): collect the
     candidates textually - a superset of what the validator can have read before it stopped"""
     data = data[:8 << 20]
-
-    def unq(bs):
-        try:
-            return json.loads(b'"' + bs + b'"')
-        except Exception:
-            return bs.decode("utf-8", "replace")
-    for m in re.finditer(rb'"(id|address)"\s*:\s*"((?:[^"\\]|\\.)*)"', data):
-        v = unq(m.group(2))
-        f["uris"].append(v)
-        if m.group(1) == b"id" and f["id"] is None:
-            f["id"] = v
-    keys = []
-    for m in re.finditer(rb'"(v[0-9]+)"\s*:', data):
-        pv = vparse(m.group(1).decode())
-        if pv:
-            keys.append(pv[0])
-    if keys:
-        f["keys"] = keys
-    if re.search(rb'"[0-9a-fA-F]{32,128}"\s*:\s*\[\s*\]', data):
-        f["lens"] = [0]
     best = (0, 0)
     for m in STR_RE.finditer(data):
         sl = m.group(1).count(b"/")
         if sl * len(m.group(1)) > best[0] * best[1]:
             best = (sl, len(m.group(1)))
     f["path"] = best
-
-
-def abstract_inventory(t):
-    """Coq term of type ainv for an inventory of the usual shape, else None"""
-    try:
-        man, vers = first(t, "manifest"), first(t, "versions")
-        if not isinstance(man, O) or not isinstance(vers, O):
-            return None
-        dig, pth = {}, {}
-
-        def did(s):
-            return dig.setdefault(s.lower(), len(dig) + 1)
-
-        def pid(s):
-            return pth.setdefault(s, len(pth) + 1)
-        m_terms = []
-        for k, arr in man:
-            if not isinstance(arr, list):
-                return None
-            cps = []
-            for s in arr:
-                if not isinstance(s, str):
-                    return None
-                mm = re.match(r"^(v[0-9]+)/", s)
-                pv = vparse(mm.group(1)) if mm else None
-                if pv:
-                    cps.append("(%d, %d)" % (pv[0], pid("c:" + s)))
-            m_terms.append("(%d, %s)" % (did(k), coq_list(cps)))
-        v_terms = []
-        for k, v in vers:
-            pv = vparse(k)
-            stt = first(v, "state") if isinstance(v, O) else None
-            if not pv or not isinstance(stt, O):
-                continue
-            ents = []
-            for dk, arr in stt:
-                if isinstance(arr, list):
-                    for s in arr:
-                        if isinstance(s, str):
-                            ents.append("(%d, %d)" % (pid("l:" + s), did(dk)))
-            v_terms.append("(%d, %s)" % (pv[0], coq_list(ents)))
-        if len(m_terms) > 400 or len(v_terms) > 400:
-            return None
-        hv = vparse(first(t, "head"))
-        return "(mkI 0 %d %s %s)" % (hv[0] if hv else 0, coq_list(v_terms), coq_list(m_terms))
-    except Exception:
-        return None
-
-
-def short(s, n=200):
-    return s if len(s) <= n else s[:n]
 
 
 def class_terms(feats, failure_kinds, dbg):
@@ -439,15 +353,8 @@ def class_terms(feats, failure_kinds, dbg):
     for k in failure_kinds:
         need |= NEED.get(k, set())
     for f in feats:
-        if "empty-manifest-entry" in need and f["lens"] is not None:
-            out.append(("empty-manifest-entry", "known_empty_entry %s" % coq_list(str(min(n, 2)) for n in f["lens"])))
         if "quadratic-path" in need and f["path"][0] > 0:
             out.append(("quadratic-path", "known_quadratic %d %d" % f["path"]))
-        if "uri-colon-segment" in need:
-            for u in f["uris"][:40]:
-                out.append(("uri-colon-segment", "known_colon_uri %s" % coq_str(short(u, 300))))
-        if "empty-pps-debug" in need and f["ainv"] and dbg:
-            out.append(("empty-pps-debug", "known_empty_pps true %s" % f["ainv"]))
     return out
 
 
@@ -1150,7 +1057,10 @@ def fam_versions(rng, obj, fixed_keys=None):
 
 MISSING = object()
 HDR = {
-    "id": ["urn:x", "urn:x", "", "", "x y", 5, None, MISSING, 'a"b', "i" * 300, "é"],
+    "id": ["urn:x", "urn:x", "", "", "x y", 5, None, MISSING, 'a"b', "i" * 300, "é",
+           # the scheme test of is_uri (serde.rs:1324-1336): members of the former uriparse class and their neighbours
+           ":", "1:x", "::", "%3A:", "-:x", "+a:b", ".:", "a b:c", "\u00e9:x", "a\u00e9:x", "a:", "A1+.-:x", "a/b:c", "//h:1/p",
+           "1a:x", "a_b:c", ":a:b"],
     "type": ["https://ocfl.io/1.0/spec/#inventory", "https://ocfl.io/1.0/spec/#inventory", "https://ocfl.io/1.1/spec/#inventory",
              "foo", "", 5, MISSING, 'q"'],
     "digestAlgorithm": ["KEEP", "KEEP", "KEEP", "md5", "sha1", "blake2b-512", "SHA512", "", 5, MISSING, "sha512/256", "sha\\512"],
@@ -1268,6 +1178,58 @@ def gen_abs_inventory(rng, alg, head, truth, weird):
     return versions, manifest
 
 
+# dedicated members of two classes repaired in /repo, as exact cross-inventory cases (root sha512, v1 sha256):
+#   (head, root versions, root manifest, [(dir, alg, head, versions, manifest)], E066 errors the repaired code must report)
+CROSS_SCRIPTS = {
+    # 7c90d82: a manifest entry "digest": [] used by a state; v1 declares its digest with [] too (equal sets, no E066) ...
+    "empty-manifest-entry/both-empty": (2, [(1, [(1, 51210), (2, 51211)]), (2, [(1, 51210), (2, 51211)])],
+                                        [(51210, [(1, 1)]), (51211, [])],
+                                        [(1, 256, 1, [(1, [(1, 25620), (2, 25621)])], [(25620, [(1, 1)]), (25621, [])])], 0),
+    # ... or stores it under a content path (E066)
+    "empty-manifest-entry/root-empty": (2, [(1, [(1, 51210), (2, 51211)]), (2, [(1, 51210), (2, 51211)])],
+                                        [(51210, [(1, 1)]), (51211, [])],
+                                        [(1, 256, 1, [(1, [(1, 25620), (2, 25621)])], [(25620, [(1, 1)]), (25621, [(1, 2)])])], 1),
+    "empty-manifest-entry/version-empty": (2, [(1, [(1, 51210), (2, 51211)]), (2, [(1, 51210), (2, 51211)])],
+                                           [(51210, [(1, 1)]), (51211, [(1, 2)])],
+                                           [(1, 256, 1, [(1, [(1, 25620), (2, 25621)])], [(25620, [(1, 1)]), (25621, [])])], 1),
+    "empty-manifest-entry/version-empty-two-paths": (2, [(1, [(1, 51210), (2, 51211)]), (2, [(1, 51210), (2, 51211)])],
+                                                     [(51210, [(1, 1)]), (51211, [(1, 2), (2, 3)])],
+                                                     [(1, 256, 1, [(1, [(1, 25620), (2, 25621)])], [(25620, [(1, 1)]), (25621, [])])], 1),
+    # 547c92e: both content paths of the state's digest lie in a later version: the empty filtered set is printed in the E066 message
+    "empty-pps-debug/later-paths": (2, [(1, [(1, 51210)]), (2, [(1, 51210)])], [(51210, [(2, 1), (2, 2)])],
+                                    [(1, 256, 1, [(1, [(1, 25620)])], [(25620, [(1, 1)])])], 1),
+    "empty-pps-debug/later-paths-3": (3, [(1, [(1, 51210)]), (2, [(1, 51210)]), (3, [(1, 51210)])], [(51210, [(3, 1), (3, 2), (2, 3)])],
+                                      [(2, 256, 2, [(1, [(1, 25620)]), (2, [(1, 25620)])], [(25620, [(1, 1)])]),
+                                       (1, 256, 1, [(1, [(1, 25620)])], [(25620, [(1, 1)])])], None),
+    # both at once: the empty filtered set against a digest declared with []
+    "empty-pps-debug/later-paths-vs-empty-entry": (2, [(1, [(1, 51210)]), (2, [(1, 51210)])], [(51210, [(2, 1), (2, 2)])],
+                                                   [(1, 256, 1, [(1, [(1, 25620)])], [(25620, [])])], 0),
+}
+
+
+def fam_cross_scripted(dest, name):
+    head, rv, rm, dirs_spec, want = CROSS_SCRIPTS[name]
+    rm_tree(dest)
+    obj = os.path.join(dest, "obj")
+    os.makedirs(obj)
+    write_file(os.path.join(dest, "0=ocfl_1.1"), b"ocfl_1.1\n")
+    write_file(os.path.join(obj, "0=ocfl_object_1.0"), b"ocfl_object_1.0\n")
+    data = jbytes(concrete_inventory(512, head, rv, rm))
+    for d in (obj, os.path.join(obj, "v%d" % head)):
+        write_file(os.path.join(d, "inventory.json"), data)
+        write_file(os.path.join(d, "inventory.json.sha512"), ("%s  inventory.json\n" % hexdigest("sha512", data)).encode())
+    dirs = []
+    for v, alg, ih, vv, vm in dirs_spec:
+        vd = os.path.join(obj, "v%d" % v)
+        data = jbytes(concrete_inventory(alg, ih, vv, vm))
+        write_file(os.path.join(vd, "inventory.json"), data)
+        write_file(os.path.join(vd, "inventory.json." + ALGN[alg][0]), ("%s  inventory.json\n" % hexdigest(ALGN[alg][0], data)).encode())
+        dirs.append("(%d, %s)" % (v, ainv_term(alg, ih, vv, vm)))
+    return "corr/cross-regress/" + name, {
+        "type": "cross", "root": ainv_term(512, head, rv, rm), "dirs": coq_list(dirs), "want_e066": want,
+        "desc": {"script": name, "head": head}}
+
+
 def fam_cross(rng, dest):
     rm_tree(dest)
     obj = os.path.join(dest, "obj")
@@ -1316,7 +1278,10 @@ def fam_cross(rng, dest):
 # ---- dedicated members of the known classes (few: some of them run into the time limit) and of the
 # ---- classes repaired in /repo (family "regress": must pass)
 
-REGRESS = ("blank-id", "version-gap", "wide-padding")
+REGRESS = ("blank-id", "version-gap", "wide-padding", "uri-colon-segment", "empty-manifest-entry")
+# members of the former class uri-colon-segment (no valid scheme, ':' in the first path segment) - (field, value)
+URI_ARGS = [("id", ":"), ("id", "1:x"), ("id", "::"), ("id", "%3A:"), ("id", "-:x"), ("id", "a b:c"), ("id", "\u00e9:x"), ("id", ".:/x"),
+            ("address", ":"), ("address", "-:x"), ("address", "1:x"), ("address", "%3A:"), ("address", "+:"), ("address", ":?q#f")]
 GAP_ARGS = ["v400000000", "v4294967295", "v00400000000", "v0004294967295", "v4294967294", "v1000000"]
 WIDE_ARGS = [65536, 70000, 1 << 20]
 
@@ -1341,14 +1306,18 @@ def fam_known(rng, obj, which, arg=None):
         st = first(vers[0][1], "state")
         st[0] = (st[0][0], ["/".join(["a"] * 150000)])
     elif which == "uri-colon-segment":
-        if rng.random() < 0.5:
-            setk("id", rng.choice([":", "1:x", "::", "%3A:"]))
+        field, value = arg or rng.choice(URI_ARGS)
+        if field == "id":
+            setk("id", value)
         else:
-            body = vers[0][1]
+            body = vers[-1][1]
+            if first(body, "user") is None:
+                body.append(("user", O()))
             for i, (k, v) in enumerate(body):
                 if k == "user":
-                    body[i] = (k, O([("name", "n"), ("address", rng.choice([":", "-:x"]))]))
+                    body[i] = (k, O([("name", "n"), ("address", value)]))
     elif which == "empty-manifest-entry":
+        # same digest algorithm in every inventory: the digests are compared, the E107-free ghost entry is only parsed
         man = first(t, "manifest")
         dgx = "ab" * (len(man[0][0]) // 2)
         man.append((dgx, []))
@@ -1424,6 +1393,17 @@ def regress_expect(r):
     validation errors of the object, within the linear budget; None or a message"""
     vh, cli = r["vh"], r["cli"]
     which = r["kind"].split("/", 1)[1]
+    if which == "uri-colon-segment":
+        # not a URI: a warning, never an error of its own (the object may have other errors, e.g. ids that differ between inventories)
+        if vh["kind"] != "verdict":
+            return "a verdict for the object (harness: %s)" % vh["kind"]
+        if cli["kind"] != "exit":
+            return "the release CLI exits with a verdict, observed %r" % (cli,)
+        field = (r.get("arg") or ["id"])[0]
+        code = "W005" if field == "id" else "W009"
+        if sum(w.get(code, 0) for w in vh.get("warns", {}).values()) < 1:
+            return "%s for the %s that is not a URI, observed warnings %r" % (code, field, vh.get("warns"))
+        return None
     if vh["kind"] != "verdict" or vh.get("nerr", 0) < 1:
         return "a verdict with validation errors for the object (harness: %s)" % vh["kind"]
     if cli["kind"] != "exit" or cli.get("rc") != 2:
@@ -1436,6 +1416,23 @@ def regress_expect(r):
         e010 = sum(c.get("E010", 0) for c in vh["codes"].values())
         if e010 < 1 or e010 > (MAX_LISTED * nkeys + 1) * max(1, len(vh["codes"])):
             return "between 1 and %d E010 errors per inventory with %d version keys, observed %d" % (MAX_LISTED * nkeys + 1, nkeys, e010)
+    return None
+
+
+def cross_script_expect(r):
+    """model-free oracle for a scripted cross-inventory member of a repaired class: a verdict from both
+    builds and exactly the E066 errors the repaired comparison has to report; None or a message"""
+    vh, cli = r["vh"], r["cli"]
+    if vh["kind"] != "verdict":
+        return "a verdict for the object (harness: %s)" % vh["kind"]
+    if cli["kind"] != "exit":
+        return "the release CLI exits with a verdict, observed %r" % (cli,)
+    want = r["corr"].get("want_e066")
+    e066 = sum(c.get("E066", 0) for c in vh["codes"].values())
+    if want is not None and e066 != want:
+        return "%d E066 error(s) from the comparison of the content paths, observed %d (codes %r)" % (want, e066, vh["codes"])
+    if (want or e066) and cli.get("rc") != 2:
+        return "the release CLI reports an invalid object (exit status 2), observed %r" % (cli,)
     return None
 
 
@@ -1505,7 +1502,7 @@ def build_case(spec, dest):
     fam = spec["family"]
     corr = None
     if fam == "cross":
-        kind, corr = fam_cross(rng, dest)
+        kind, corr = fam_cross_scripted(dest, spec["script"]) if spec.get("script") else fam_cross(rng, dest)
         return kind, corr
     obj = new_root(dest, spec["base"])
     if fam == "pristine":
@@ -1574,6 +1571,7 @@ def do_case(spec):
         if fam_is_regress(spec):
             t = jload_pairs(open(os.path.join(obj, "inventory.json"), "rb").read())
             res["nkeys"] = len(first(t, "versions") or [])
+            res["arg"] = spec.get("arg")
         if bad or corr is not None:
             res["feats"] = features(obj)
         if bad:
@@ -1671,7 +1669,7 @@ def make_specs(ctx, bases, libs, vh, rocfl):
             s["base_name"], s["base"] = base
         s.update(kw)
         specs.append(s)
-    known = ["quadratic-path", "empty-manifest-entry", "uri-colon-segment"]
+    known = ["quadratic-path"]
     if not ctx.quick():
         known = known + ["quadratic-path"]
     one_version = [b for b in bases if b[0] == "fx:valid/minimal_one_version_one_file"] or [("lib-sha512", libs["lib-sha512"])]
@@ -1684,6 +1682,15 @@ def make_specs(ctx, bases, libs, vh, rocfl):
     for a in GAP_ARGS:
         for _ in range(1 if ctx.quick() else 3):
             add("regress", lib(), which="version-gap", arg=a)
+    # repaired by 389bfd0: every listed member, in "id" and in a user "address" (must pass: verdict with W005 / W009)
+    for a in URI_ARGS:
+        for _ in range(1 if ctx.quick() else 3):
+            add("regress", rng.choice(one_version + [lib()]), which="uri-colon-segment", arg=list(a))
+    # repaired by 7c90d82 / 547c92e: the scripted cross-inventory members (exact abstraction; must pass with the model's E066 count)
+    for name in CROSS_SCRIPTS:
+        add("cross", script=name)
+    for _ in range(2 if ctx.quick() else 6):
+        add("regress", lib(), which="empty-manifest-entry")
     # an inventory found in the directory of another version: every pair for the library objects, a sample for the fixtures
     fx_swaps = []
     for b in bases:
@@ -1726,7 +1733,7 @@ def pmap(fn, items, workers):
 
 
 def spec_public(s):
-    return {k: s[k] for k in ("family", "seed", "base_name", "which", "arg", "shape", "j", "k", "allow_deep", "vkeys") if k in s}
+    return {k: s[k] for k in ("family", "seed", "base_name", "which", "arg", "shape", "j", "k", "allow_deep", "vkeys", "script") if k in s}
 
 
 def evaluate(ctx, specs, results):
@@ -1750,8 +1757,16 @@ def evaluate(ctx, specs, results):
                 if c.get("w001") and r["vh"]["kind"] == "verdict" and "BSeq" not in c["items"]:
                     w = "W001" in r["vh"].get("warns", {}).get("object", {})
                     terms.append((r["idx"], "corr:w001", "check_w001 %s %s" % (c["keys"], coq_bool(w))))
+                if r["vh"]["kind"] == "verdict":
+                    # the scheme test of is_uri on the "id" the visitor reads (W005 is reported only there, serde.rs:191-199)
+                    w = "W005" in r["vh"].get("warns", {}).get("object", {})
+                    terms.append((r["idx"], "corr:w005", "check_w005 %s %s" % (c["items"], coq_bool(w))))
             if r["cli"]["kind"] in ("exit", "panic"):
                 terms.append((r["idx"], "corr:visit-cli", "check_visit_panic %s %s" % (c["items"], coq_bool(r["cli"]["kind"] == "panic"))))
+        if r["family"] == "regress" and r["kind"].endswith("/uri-colon-segment") and r["vh"]["kind"] == "verdict" and r.get("arg"):
+            code = "W005" if r["arg"][0] == "id" else "W009"
+            w = any(code in x for x in r["vh"].get("warns", {}).values())
+            terms.append((r["idx"], "corr:uri", "check_uri_warned %s %s" % (coq_str(r["arg"][1]), coq_bool(w))))
         if c and c["type"] == "cross":
             site = {"unwrap-err": 1, "unwrap-none": 2, "sub-overflow": 3}
             if r["vh"]["kind"] in ("verdict", "panic"):
@@ -1801,6 +1816,15 @@ def evaluate(ctx, specs, results):
             want = None if msg else regress_expect(r)
             if msg or want:
                 # the regression test of a fix commit: never excused by a known class
+                ctx.violation("impl-violation", {
+                    "input": spec_public(s), "mutation": r["kind"], "files": r.get("files"),
+                    "observed": {"harness_debug": r["vh"], "cli_release": r["cli"]},
+                    "expected": "repaired class %s: %s" % (r["kind"], want or ("a verdict; observed: " + msg))})
+                continue
+        if r["family"] == "cross" and s.get("script"):
+            stats["regress"][r["kind"]] = stats["regress"].get(r["kind"], 0) + 1
+            want = None if msg else cross_script_expect(r)
+            if msg or want:
                 ctx.violation("impl-violation", {
                     "input": spec_public(s), "mutation": r["kind"], "files": r.get("files"),
                     "observed": {"harness_debug": r["vh"], "cli_release": r["cli"]},
@@ -1872,7 +1896,8 @@ def run_repos(ctx, specs, results, bases, libs, vh, rocfl, stats):
             members.insert(pos, {"family": "pristine", "seed": 0, "base_name": b[0], "base": b[1]})
         rspecs.append({"idx": i, "members": members, "tmp": os.path.join(ctx.tmp, "repos"), "vh": vh, "rocfl": rocfl})
     # one repository with members of the repaired classes between untouched objects: before b116ae5 the panic at
-    # the blank id took the whole repository run down; now every object must get its result (judged like the others)
+    # the blank id took the whole repository run down (as did the panics repaired by 547c92e, 7c90d82, 389bfd0); now every
+    # object must get its result (judged like the others)
     lib512 = {"base_name": "lib-sha512", "base": libs["lib-sha512"]}
     rspecs.append({"idx": len(rspecs), "tmp": os.path.join(ctx.tmp, "repos"), "vh": vh, "rocfl": rocfl,
                    "members": [{"family": "pristine", "seed": 0, "base_name": good[0][0], "base": good[0][1]},
@@ -1881,6 +1906,11 @@ def run_repos(ctx, specs, results, bases, libs, vh, rocfl, stats):
                                {"family": "pristine", "seed": 0, "base_name": good[len(good) // 2][0], "base": good[len(good) // 2][1]},
                                dict(lib512, family="regress", which="wide-padding", arg=70000, seed=3),
                                dict(lib512, family="regress", which="version-gap", arg="v400000000", seed=4),
+                               dict(lib512, family="regress", which="uri-colon-segment", arg=["id", ":"], seed=7),
+                               dict(lib512, family="regress", which="uri-colon-segment", arg=["address", "-:x"], seed=8),
+                               dict(lib512, family="regress", which="empty-manifest-entry", seed=9),
+                               {"family": "cross", "seed": 10, "script": "empty-manifest-entry/root-empty"},
+                               {"family": "cross", "seed": 11, "script": "empty-pps-debug/later-paths"},
                                dict(lib512, family="swap", shape="pair", j=2, k=1, seed=5),
                                dict(lib512, family="swap", shape="root-into-old", j=1, k=0, seed=6),
                                {"family": "pristine", "seed": 0, "base_name": good[-1][0], "base": good[-1][1]}]})
@@ -1957,12 +1987,17 @@ def run(ctx):
                            "arithmetic and guard logic of the modelled fragments only, everything else is shown on the executed inputs")
     ctx.assumptions.append("serde_json's recursion limit (128) turns deep nesting into a parse error (observed on the nested inputs, not proved)")
     ctx.assumptions.append("debug harness (overflow checks on) and release CLI are both run on every input; a failure is attributed to a "
-                           "known class by the Coq classifier of Model/KnownC17.v evaluated on features extracted from the input by the driver")
+                           "known class (quadratic-path only) by the Coq classifier of Model/KnownC17.v evaluated on features extracted from "
+                           "the input by the driver")
+    ctx.assumptions.append("uriparse 0.6.4 is third-party code: the theorems about is_uri quantify over every total answer function of the "
+                           "parser and use a panic set read off its source (uri_try_from_panics, an approximation from above); that the real "
+                           "parser panics nowhere else is shown on the executed inputs only")
     return common.finish_with_proof(
         ctx, proof,
         rule="(every pair of version inventories swapped between version directories of the library objects: must-pass) "
-             "(members of the classes repaired in /repo - blank id, version gaps up to u32::MAX, padding wider than 65535 - are must-pass "
-             "inputs: E037 / at most 100 E010 per version key / a verdict, else violation) "
+             "(members of the classes repaired in /repo - blank id, version gaps up to u32::MAX, padding wider than 65535, manifest entry "
+             "with no content paths, empty set printed in an E066 message, id / address without scheme and with ':' in the first segment "
+             "- are must-pass inputs: E037 / at most 100 E010 per version key / a verdict / the model's E066 count / W005, W009, else violation) "
              "object roots = official fixtures and library-written objects, mutated (random bytes, grammar-based JSON with duplicate keys/"
              "deep nesting/huge numbers/lone surrogates/1 MB strings, single edits of every JSON node with field-specific absurd values, "
              "directory-structure edits: missing/extra/empty/special files, deep trees, odd version directories) plus three families whose "
